@@ -16,7 +16,8 @@ from concurrent.futures import ThreadPoolExecutor
 def run(ctx):
     q = ctx.quick
     b = ctx.build("vd-incr")
-    ctx.mc("IncrValidator", "IncrValidator_mc_quick.cfg" if q else "IncrValidator_mc_thorough.cfg", timeout=2400)
+    for cfg in (["IncrValidator_mc_quick.cfg"] if q else ["IncrValidator_mc_thorough.cfg", "IncrValidator_mc_thorough3.cfg"]):
+        ctx.mc("IncrValidator", cfg, timeout=3600)
     ctx.mc("StatefulCheck", "StatefulCheck_mc.cfg", timeout=600)
     gens = [("IncrValidator_gen_quick.cfg", 2), ("IncrValidator_gen_quick3.cfg", 3)] if q else \
            [("IncrValidator_gen_quick.cfg", 2), ("IncrValidator_gen_thorough.cfg", 3)]
